@@ -244,7 +244,55 @@ func runC05(c *Ctx) {
 		r.Check(okConn, "R05.2", name, "connection of "+s.Callee.Name(), p.Pos(s.Call.Pos()),
 			"the statement runs on Connection(ctx) obtained inside the literal from the literal's own ctx", why)
 	}
-	r.Floor("R05.1", 4, "tuple INSERT, tuple DELETE, delete-by-query, mapping INSERT")
+	// floor: the write statements judged above are what the persister's write operations execute:
+	// at least four exported methods of the persister reach one (relationships written, deleted,
+	// deleted by query, transacted; names mapped) - a count of statement sites would depend on
+	// whether two operations share the code that executes their statement
+	{
+		sites := map[*ssa.Function]bool{}
+		for _, s2 := range p.StmtSites() {
+			if s2.Write && !isMigrationOrTestHelper(s2.Fn) {
+				if pk := core.FuncPkg(s2.Fn); pk != nil && pk.Path() == sqlPkgPath {
+					sites[core.Outermost(s2.Fn)] = true
+				}
+			}
+		}
+		nOps := 0
+		for _, fn := range p.KetoFuncs(sqlPkgRel) {
+			if fn.Parent() != nil || fn.Object() == nil || !fn.Object().Exported() || fn.Signature.Recv() == nil || isMigrationOrTestHelper(fn) {
+				continue
+			}
+			seen := map[*ssa.Function]bool{}
+			var reach func(f *ssa.Function, depth int) bool
+			reach = func(f *ssa.Function, depth int) bool {
+				if sites[f] {
+					return true
+				}
+				if seen[f] || depth > 3 {
+					return false
+				}
+				seen[f] = true
+				hit := false
+				for _, g := range core.Closures(f) {
+					core.Instrs(g, func(_ *ssa.BasicBlock, _ int, ins ssa.Instruction) {
+						if ci, ok := ins.(ssa.CallInstruction); ok && !hit {
+							if sc := ci.Common().StaticCallee(); sc != nil && sc.Blocks != nil && core.FuncPkg(sc) != nil && core.FuncPkg(sc).Path() == sqlPkgPath {
+								hit = reach(core.Outermost(sc), depth+1)
+							}
+						}
+					})
+				}
+				return hit
+			}
+			if reach(fn, 0) {
+				nOps++
+			}
+		}
+		if nOps < 4 {
+			r.Undecide("R05.1", "", "write operations of the persister", "", fmt.Sprintf("%d exported methods of the persister reach a write statement (floor 4)", nOps))
+		}
+	}
+	r.Floor("R05.1", 1, "write statements")
 	// a function of the package that calls a writing function writes as well (the statement
 	// may have been extracted into a helper)
 	for changed := true; changed; {
@@ -470,7 +518,7 @@ func runC05(c *Ctx) {
 		r.Check(!outside && len(lits) == 1 && !repeated, "R05.5", core.FuncName(fn), fmt.Sprintf("%d write operations", len(ops)), p.Pos(fn.Pos()),
 			"all write operations of the function run inside one Transaction literal that is entered once", why)
 	}
-	r.Floor("R05.5", 4, "WriteRelationTuples, DeleteRelationTuples, TransactRelationTuples, MapStringsToUUIDs")
+	r.Floor("R05.5", 2, "the transacting write and at least one chunked writer (how many depends on whether writers share their chunk loop)")
 
 	inputTuplesCovered(c, "R05.6", writeOps)
 	// R05.8 a delta that cannot be decoded or validated fails the whole request: in the write handlers and
@@ -596,8 +644,8 @@ func inputTuplesCovered(c *Ctx, rule string, writeOps map[*ssa.Function]bool) {
 		r.Check(len(bad) == 0, rule, core.FuncName(top), "input tuples covered", p.Pos(top.Pos()),
 			fmt.Sprintf("the input slice is only iterated whole or tiled (%d sub-slice expressions)", nSlices), strings.Join(bad, "; "))
 	}
-	if nIn < 2 {
-		r.Undecide(rule, "", "write functions with a tuple slice parameter", "", fmt.Sprintf("%d found (floor 2)", nIn))
+	if nIn < 1 {
+		r.Undecide(rule, "", "write functions with a tuple slice parameter", "", fmt.Sprintf("%d found (floor 1)", nIn))
 	}
 }
 
